@@ -130,6 +130,12 @@ fn build(name: &'static str, slots: usize, pdu_size: usize, bufs: &[usize], open
         }
         open_ids.push(*id);
     }
+    if name.contains("refilled") {
+        // the caller refilled the free list while reassemblies hold buffers
+        for b in bufs {
+            let _ = d.provision_storage(vec![0u8; *b].into_boxed_slice());
+        }
+    }
     let mem = d.memory;
     Some(RxState { name, slots, pdu_size, mem, prime, table, open_ids })
 }
@@ -173,6 +179,7 @@ pub fn small_states() -> Vec<RxState> {
         build("manager-knows-all", 2, 64, &[64, 64], &[(5, 10, 40)], Some(l6.clone()), table_all()),
         build("manager-knows-some", 2, 64, &[64, 64], &[(5, 10, 40)], None, table_some()),
         build("256-slots", 256, 64, &[64, 64, 64], &[(5, 10, 40), (200, 3, 40)], Some(l6), MandTable::none()),
+        build("all-slots-open-free-list-refilled", 2, 64, &[64, 64, 64, 64], &[(5, 10, 40), (0, 8, 40)], None, MandTable::none()),
     ];
     cands.into_iter().flatten().collect()
 }
